@@ -43,7 +43,7 @@ fn main() {
     let gp = ohmc::props::structured::gluing_pairs(if quick { 12 } else { 24 }, if quick { 6 } else { 7 });
     ctx.run_slice(Slice::new(format!("structured-gluing[{} pairs, up to {} nodes]", gp.len(), gp.iter().map(|p| p.1.nodes.len() + p.2.nodes.len()).max().unwrap_or(0)), gp.len() as u64, |i, loc| check_pair::<B>(&gp[i as usize].1, &gp[i as usize].2, loc)).heavy());
     let meta = Meta {
-        rule: "every ordered pair (f,g) of the listed universes of well-formed open hypergraphs over u8 labels (types matching and mismatching); a case is non-trivial when the pair is composable and some identification class has >=2 members with a hyperedge present, or >=3 members".into(),
+        rule: "every ordered pair (f,g) of the listed universes of well-formed open hypergraphs over u8 labels (types matching and mismatching); a case is non-trivial when the pair is composable and some identification class has >=2 members with a hyperedge present, or >=3 members; plus structured gluing pairs of up to 64-256 nodes that identify many nodes into one class (zig-zag chains, two interleaved chains that must stay apart, wire orders that grow union-by-rank trees of depth d, two such trees tied through the deepest node) in three wire orders".into(),
         bounds: "glue-deep: <=3 nodes, no edges, boundaries <=3 (repeats allowed), 2 node labels; glue-edges: <=2 nodes, <=1 hyperedge of arity <=2, 2 node labels, boundaries <=2 (quick: left operand input boundary <=1, one edge label); glue-3 (thorough): <=3 nodes, one node label".into(),
         assumptions: vec!["small-scope: sizes above the bounds are not explored".into(), "labels are u8 values from a 2-letter alphabet".into(), "Vec backend".into()],
         explanation: "explicit-state exploration of the real Arrow::compose / >> on every pair; oracle = isomorphism (interfaces pinned) with an independently computed gluing on the plain model; every execution is an implementation execution".into(),
